@@ -30,6 +30,7 @@ type Engine struct {
 	implCache  map[string][]devImpl
 	inlineDeps map[string]bool // dependency packages whose small functions are followed (built on demand)
 	built      map[*ssa.Package]bool
+	nonNilGlobals map[*ssa.Global]bool
 }
 
 // ensureBuilt builds the SSA of allow-listed dependency packages on demand so
